@@ -9,6 +9,7 @@ IDS="$@"
 W=/tmp/seedrun_$$
 git -C /repo worktree add -q --detach $W HEAD || exit 2
 if ! git -C $W apply "$D/patch.diff"; then echo "patch does not apply to the current tree"; git -C /repo worktree remove --force $W; exit 3; fi
+cp /repo/Cargo.lock $W/Cargo.lock 2>/dev/null
 for id in $IDS; do
   ( cd /verif && VERIF_REPO=$W ./check $id --tier quick > "$D/check_$id.log" 2>&1; echo "exit=$?" >> "$D/check_$id.log" )
   echo "== seed $(basename $D) vs check $id: $(grep -c '^VIOLATION' $D/check_$id.log) VIOLATION line(s), $(tail -1 $D/check_$id.log)"
